@@ -26,6 +26,8 @@ enum S {
     B(String, usize, usize),
     Rx(usize, usize, usize, usize),
     Ra(usize, [f32; 12]),
+    /// a shape of the fidget-shapes library: name, tree arguments, f32 arguments
+    Sh(String, Vec<usize>, Vec<f32>),
 }
 
 fn bits(s: &str) -> f32 {
@@ -53,6 +55,13 @@ fn parse(script: &str) -> Vec<S> {
                         m[i] = bits(t[2 + i]);
                     }
                     S::Ra(n(1), m)
+                }
+                "sh" => {
+                    // sh <Name> <number of tree arguments> <trees...> <f32 bits...>
+                    let nt = n(2);
+                    let trees = (0..nt).map(|i| n(3 + i)).collect();
+                    let fl = t[3 + nt..].iter().map(|w| bits(w)).collect();
+                    S::Sh(t[1].to_string(), trees, fl)
                 }
                 o => panic!("bad statement {o}"),
             }
@@ -110,6 +119,10 @@ fn build(prog: &[S], vars: &mut HashMap<usize, Var>) -> Tree {
             }
             S::Rx(tg, x, y, z) => t[*tg].remap_xyz(t[*x].clone(), t[*y].clone(), t[*z].clone()),
             S::Ra(tg, m) => t[*tg].remap_affine(affine(m)),
+            S::Sh(name, tr, f) => {
+                let args: Vec<Tree> = tr.iter().map(|i| t[*i].clone()).collect();
+                crate::shapes::build_shape(name, &args, f)
+            }
         };
         t.push(n);
     }
@@ -169,6 +182,8 @@ fn reference(prog: &[S], id: usize, f: [f64; 3], vars: &[f64]) -> f64 {
             let g = [reference(prog, *x, f, vars), reference(prog, *y, f, vars), reference(prog, *z, f, vars)];
             reference(prog, *t, g, vars)
         }
+        // shapes have no f64 reference here: their specification lives on the SMT side
+        S::Sh(..) => f64::NAN,
         S::Ra(t, m) => {
             let mut g = [0f64; 3];
             for i in 0..3 {
